@@ -121,8 +121,33 @@ def build_inputs(case, use_jax):
     bl = [{'x': mk('client %r batch %d x' % (cid, j), b[0], [len(b[0])], False),
            'y': mk('client %r batch %d y' % (cid, j), b[1], [len(b[1])], True)} for j, b in enumerate(batches)]
     ci = tuple(mk('client %r input[%d]' % (cid, k), cin[k], lp['shape'], lp['int']) for k, lp in enumerate(leaves))
-    clients.append((_ext_id(case, cid), iter(bl) if case.get('lazy') else bl, ci))
+    clients.append((_ext_id(case, cid), bl, ci))
   return shared, clients, handles
+
+
+def as_passed(case, clients):
+  """The clients collection as handed to fedjax: the caller's own list of (id, batches, input)
+  tuples; batches are the caller's own python lists, or (lazy) fresh iterators over them."""
+  if case.get('lazy'):
+    return [(cid, iter(bl), ci) for cid, bl, ci in clients]
+  return clients
+
+
+def container_snapshot(shared, clients):
+  """Structure of every CONTAINER the caller passes (not the arrays inside): lengths, keys and
+  element identities of the clients list, each client tuple, each batches list, each batch
+  dict, each client-input tuple and the shared-input dict / tuple."""
+  snap = [('clients list', [id(c) for c in clients])]
+  snap.append(('shared dict', sorted((k, id(v)) for k, v in shared.items())))
+  snap.append(('shared tuple', [id(v) for v in shared['s']]))
+  for n, c in enumerate(clients):
+    cid, bl, ci = c
+    snap.append(('client #%d tuple' % n, [repr(cid), id(bl), id(ci), len(c)]))
+    snap.append(('client #%d (%r) batches list' % (n, cid), [id(b) for b in bl]))
+    for j, b in enumerate(bl):
+      snap.append(('client #%d (%r) batch %d dict' % (n, cid, j), sorted((k, id(v)) for k, v in b.items())))
+    snap.append(('client #%d (%r) input tuple' % (n, cid), [id(v) for v in ci]))
+  return snap
 
 
 def _ext_id(case, cid):
@@ -175,7 +200,21 @@ def run_backend(case, backend):
   wsr = bool(case['wsr'])
   init, step, final = build_program(case['prog'], wsr)
   shared, clients, handles = build_inputs(case, bool(case.get('jaxin')))
-  o = {'err': None, 'yields': [], 'deleted': [], 'changed': []}
+  o = {'err': None, 'yields': [], 'deleted': [], 'changed': [], 'containers': [], 'repeat': None}
+  before = container_snapshot(shared, clients)
+
+  def call(f):
+    ys = []
+    for item in f(shared, as_passed(case, clients)):
+      if wsr:
+        cid, out, res = item
+        res_c = [_canon_tree(np, jax, r) for r in res]
+      else:
+        cid, out = item
+        res_c = None
+      ys.append({'id': _int_id(case, cid), 'out': _canon_tree(np, jax, out), 'res': res_c})
+    return ys
+
   try:
     if backend == 'pmap':
       d = case.get('D')
@@ -187,18 +226,25 @@ def run_backend(case, backend):
       be = backend
     with fedjax.for_each_client_backend(be):
       f = fedjax.for_each_client(init, step, final, with_step_result=wsr)
-    for item in f(shared, clients):
-      if wsr:
-        cid, out, res = item
-        res_c = [_canon_tree(np, jax, r) for r in res]
-      else:
-        cid, out = item
-        res_c = None
-      o['yields'].append({'id': _int_id(case, cid),
-                          'out': _canon_tree(np, jax, out), 'res': res_c})
+    o['yields'] = call(f)
+    # the same call once more on the very same caller objects: must give the same yields
+    try:
+      again = call(f)
+      key = lambda y: json.dumps(y, sort_keys=True)
+      o['repeat'] = 'same' if sorted(map(key, again)) == sorted(map(key, o['yields'])) else 'differs'
+    except Exception as ex:  # pylint: disable=broad-except
+      o['repeat'] = 'raises E' + type(ex).__name__
   except Exception as ex:  # pylint: disable=broad-except
     o['err'] = 'E' + type(ex).__name__
     o['err_text'] = ''.join(traceback.format_exception_only(type(ex), ex)).strip()[:300]
+  after = container_snapshot(shared, clients)
+  bd = dict(before)
+  for name, v in after:
+    if name not in bd or bd[name] != v:
+      o['containers'].append(name)
+  for name, _ in before:
+    if name not in dict(after) and name not in o['containers']:
+      o['containers'].append(name)
   # the caller's buffers: still valid and bit-identical
   for name, obj, copy in handles:
     dead = False
